@@ -108,8 +108,11 @@ def handler : Handler := fun op j =>
     | none => some (err (if y.shape.head? == some 0 then "index" else "shape"))  -- `y[0]` / `.item()` raise
     | some a => some (ok (jF a))
   | "routing" => do
-    let m ← fStr? j "method"
-    some (ok (jB (usesGrad String.toLower m)))
+    match field? j "callable" with
+    | some _ => some (ok (jB (usesGradM String.toLower .callable)))
+    | none =>
+      let m ← fStr? j "method"
+      some (ok (jB (usesGradM String.toLower (.name m))))
   | "dtype" => do
     let d ← dtOfStr? (← fStr? j "dtype")
     some (ok (jObj [("work", jS (dtStr d.work)), ("result", jS (dtStr (resultDType d))), ("accepted", jB d.isInexact)]))
